@@ -22,9 +22,13 @@ pub struct Case {
     pub recursive: bool,
     pub clean: bool,
     pub threads: usize,
+    /// build everything, then verify the inputs (ignored when `clean`)
+    #[serde(default)]
+    pub verify: bool,
 }
 
-const DIRS: &[&str] = &["", "a", "a/b", "a/b/c", "z"];
+// "ab" and "a/bc" are siblings whose names extend a neighbour's name (string-prefix confusion)
+const DIRS: &[&str] = &["", "a", "a/b", "a/b/c", "z", "ab", "a/bc"];
 const LOOKALIKES: &[&str] = &["txtpp", ".txtpp", "a.txtpp.b.c", "atxtpp", "x.txt", "x.txtpp.bak.old", "notes.md", "b.tx"];
 
 fn join(d: &str, n: &str) -> String {
@@ -171,6 +175,7 @@ fn gen_case(c: &mut Choices) -> Case {
         recursive: c.chance(1, 2),
         clean: c.chance(1, 4),
         threads: 1 + c.below(6),
+        verify: c.chance(1, 4),
     }
 }
 
@@ -181,7 +186,13 @@ pub fn check(case: &Case, st: &mut Stats) -> Check {
     let mut model = Model::new(&su.tree, &case.project.dirs, &cfg);
     let all_outputs: BTreeMap<String, String> = case.project.sources().into_iter().map(|s| (names::output_of(&s).unwrap(), s)).collect();
     let opts = RunOpts {
-        mode: if case.clean { ModeS::Clean } else { ModeS::Build },
+        mode: if case.clean {
+            ModeS::Clean
+        } else if case.verify {
+            ModeS::Verify
+        } else {
+            ModeS::Build
+        },
         trailing_newline: true,
         threads: case.threads,
         recursive: case.recursive,
@@ -194,7 +205,7 @@ pub fn check(case: &Case, st: &mut Stats) -> Check {
     if deep || aliased || lookalike {
         st.nontrivial_hash(&serde_json::to_string(case).unwrap());
     }
-    st.sample(|| serde_json::json!({"files": case.project.files.keys().collect::<Vec<_>>(), "inputs": case.inputs, "recursive": case.recursive, "clean": case.clean}), 4);
+    st.sample(|| serde_json::json!({"files": case.project.files.keys().collect::<Vec<_>>(), "inputs": case.inputs, "recursive": case.recursive, "clean": case.clean, "verify": case.verify}), 4);
     su.write(&case.project);
     if case.clean {
         // clean on a tree with all outputs present: removed set == outputs of the clean set
@@ -234,6 +245,25 @@ pub fn check(case: &Case, st: &mut Stats) -> Check {
         return Ok(());
     }
     let ex = model.build(&inputs, case.recursive);
+    // verify: everything is built first, then the case's inputs are verified; the commands of
+    // exactly the processed sources run once more and nothing is created
+    let mut base_marks: BTreeMap<String, u32> = BTreeMap::new();
+    let mut tree_before = su.tree.clone();
+    if case.verify {
+        if matches!(ex.verdict, Verdict::Excluded(_)) {
+            st.exclude("outside the model's domain");
+            return Ok(());
+        }
+        let all = RunOpts { mode: ModeS::Build, recursive: true, inputs: vec![".".into()], ..opts.clone() };
+        let b = runner::run_free(&su.sc.root, &all);
+        if !b.ok {
+            st.class("verify_prebuild_failed_skipped");
+            return Ok(());
+        }
+        base_marks = su.sc.markers();
+        tree_before = crate::fsx::read_tree(&su.sc.root);
+    }
+    let what = if case.verify { "verify" } else { "build" };
     let out = runner::run_free(&su.sc.root, &opts);
     match &ex.verdict {
         Verdict::Excluded(r) => {
@@ -245,28 +275,28 @@ pub fn check(case: &Case, st: &mut Stats) -> Check {
             if out.ok {
                 return viol(
                     &format!("C11 missing-target-accepted {k:?}"),
-                    format!("input {what:?} has no source but the build succeeded (inputs {:?})", case.inputs),
+                    format!("input {what:?} has no source but the run succeeded (inputs {:?}, verify={})", case.inputs, case.verify),
                 );
             }
             return Ok(());
         }
         Verdict::Ok => {}
     }
-    st.class(if case.recursive { "build_recursive" } else { "build_flat" });
+    st.class(&format!("{what}_{}", if case.recursive { "recursive" } else { "flat" }));
     if !out.ok {
-        return viol("C11 build-failed", format!("build of {:?} failed: {}", case.inputs, super::common::short_err(&out.err)));
+        return viol(&format!("C11 {what}-failed"), format!("{what} of {:?} failed: {}", case.inputs, super::common::short_err(&out.err)));
     }
-    // created outputs == outputs of the expected processed set
-    let want: BTreeSet<String> = ex.processed.iter().map(|s| names::output_of(s).unwrap()).collect();
+    // created outputs == outputs of the expected processed set (verify: nothing)
+    let want: BTreeSet<String> = if case.verify { BTreeSet::new() } else { ex.processed.iter().map(|s| names::output_of(s).unwrap()).collect() };
     let after = crate::fsx::read_tree(&su.sc.root);
-    let created: BTreeSet<String> = after.keys().filter(|k| !su.tree.contains_key(*k)).cloned().collect();
+    let created: BTreeSet<String> = after.keys().filter(|k| !tree_before.contains_key(*k)).cloned().collect();
     if created != want {
         let extra: Vec<&String> = created.difference(&want).collect();
         let missing: Vec<&String> = want.difference(&created).collect();
         return viol(
             if !extra.is_empty() { "C11 processed-too-much" } else { "C11 processed-too-little" },
             format!(
-                "inputs {:?} recursive={}: created {created:?}\n  expected exactly {want:?}\n  unexpected {extra:?} missing {missing:?}",
+                "{what} inputs {:?} recursive={}: created {created:?}\n  expected exactly {want:?}\n  unexpected {extra:?} missing {missing:?}",
                 case.inputs, case.recursive
             ),
         );
@@ -274,12 +304,12 @@ pub fn check(case: &Case, st: &mut Stats) -> Check {
     // each processed source executed its command exactly once, no other source did
     let marks = su.sc.markers();
     for (src, id) in &case.ids {
-        let n = marks.get(id).copied().unwrap_or(0);
+        let n = marks.get(id).copied().unwrap_or(0) - base_marks.get(id).copied().unwrap_or(0);
         let want_n = if ex.processed.contains(src) { 1 } else { 0 };
         if n != want_n {
             return viol(
                 if n > want_n { "C11 source-processed-more-than-once" } else { "C11 source-not-processed" },
-                format!("source {src}: command executed {n} times, expected {want_n} (inputs {:?}, recursive={})", case.inputs, case.recursive),
+                format!("{what}: source {src}: command executed {n} times, expected {want_n} (inputs {:?}, recursive={})", case.inputs, case.recursive),
             );
         }
     }
@@ -309,7 +339,7 @@ impl Prop for C11 {
         PropMeta {
             id: "C11",
             level: "exploration",
-            rule: "cases = generated directory trees (depth <=3) with 1-7 sources in the three name shapes (x.ext.txtpp, x.txtpp.ext, x.txtpp), include/after dependencies between them, and look-alike files (txtpp, .txtpp, a.txtpp.b.c, atxtpp, x.txtpp.bak.old ...) x input lists of 1-4 entries (directories as '.', './', relative, absolute; files by source or output name, './', absolute, through another directory and '..'; duplicates; missing targets; plain files without source) x recursive on/off x build or clean, base directory different from the process working directory. Oracle: independent input-resolution model => expected processed set P (closed under dependencies for build). Build from an output-free tree: the set of created files equals {out(s) | s in P} and each source's marker command ran exactly once iff s in P; an input without source => error. Clean on a tree with every output present: the set of removed outputs equals the outputs of the named sources (not their dependencies), no command runs. Non-trivial = sources at depth >=2, aliased/duplicate/mixed inputs, or look-alikes present; distinct by hash.",
+            rule: "cases = generated directory trees (depth <=3) with 1-7 sources in the three name shapes (x.ext.txtpp, x.txtpp.ext, x.txtpp), include/after dependencies between them, and look-alike files (txtpp, .txtpp, a.txtpp.b.c, atxtpp, x.txtpp.bak.old ...) x input lists of 1-4 entries (directories as '.', './', relative, absolute; files by source or output name, './', absolute, through another directory and '..'; duplicates; missing targets; plain files without source) x recursive on/off x build, verify (after a full build) or clean, base directory different from the process working directory. Oracle: independent input-resolution model => expected processed set P (closed under dependencies for build). Build from an output-free tree: the set of created files equals {out(s) | s in P} and each source's marker command ran exactly once iff s in P; an input without source => error. Verify after a full build: succeeds, creates nothing, and the marker commands of exactly the sources in P run once more. Clean on a tree with every output present: the set of removed outputs equals the outputs of the named sources (not their dependencies), no command runs. Non-trivial = sources at depth >=2, aliased/duplicate/mixed inputs, or look-alikes present; distinct by hash.",
             assumptions: vec!["symlinks are not generated; the child-process entry with a relative base directory is covered by C17"],
             hang_is_violation: false,
             needs_cli: false,
